@@ -350,6 +350,9 @@ func (g *gen) handOff() {
 	cl := hoFunc(sess, "iqResponder", "Close")
 	g.p("Definition ho_responder_close_closes_chan : bool := %s.\n", hoBool(cl != nil && hoCountCalls(cl, "close") == 1))
 
+	// ---- session.go / session_iq.go: the life of the response after the hand-off ----
+	g.hoResponseLife(sess, cl)
+
 	// ---- receipts ----
 	sme := hoFunc(rc, "Handler", "SendMessageElement")
 	hm := hoFunc(rc, "Handler", "HandleMessage")
@@ -446,6 +449,132 @@ func (g *gen) handOff() {
 		bytes.Contains([]byte(g.hoText(cc)), []byte("c.closeRead()")) && bytes.Contains([]byte(g.hoText(cn)), []byte("c.closeRead()")) &&
 		hoCountCalls(cc, "close") == 0 && hoCountCalls(cn, "close") == 0))
 	g.hoList("ho_ibb_yields", append(hoYields(rd), hoYields(pl)...))
+	// the close path that runs on the serve goroutine must never wait for the
+	// write lock: a writer holds it while it waits for an acknowledgement that
+	// only the serve goroutine can deliver
+	if cn != nil {
+		blocking, try := 0, 0
+		ast.Inspect(cn, func(x ast.Node) bool {
+			call, is := x.(*ast.CallExpr)
+			if !is {
+				return true
+			}
+			sel, is := call.Fun.(*ast.SelectorExpr)
+			if !is || !bytes.HasSuffix([]byte(g.hoText(sel.X)), []byte("writeLock")) {
+				return true
+			}
+			switch sel.Sel.Name {
+			case "Lock", "RLock":
+				blocking++
+			case "TryLock":
+				try++
+			}
+			return true
+		})
+		g.p("Definition ho_ibb_serve_close_blocking_write_locks : nat := %d.\n", blocking)
+		g.p("Definition ho_ibb_serve_close_try_write_locks : nat := %d.\n", try)
+		g.p("Definition ho_ibb_serve_close_sets_abort : bool := %s.\n", hoBool(bytes.Contains([]byte(g.hoText(cn)), []byte("aborted.Store(true)"))))
+	}
+	sw := hoFunc(ic, "stanzaWriter", "Write")
+	g.p("Definition ho_ibb_writer_tests_abort_first : bool := %s.\n", hoBool(sw != nil && len(sw.Body.List) > 0 &&
+		bytes.Contains([]byte(g.hoText(sw.Body.List[0])), []byte("aborted.Load()"))))
+}
+
+// hoResponseLife: which Close a failing errCloser.Token calls, whether
+// errCloser.Close is once-guarded, whether iterIQ wraps the response and closes
+// it on its error path, whether unmarshalIQ closes it on every path, and whether
+// iqResponder.Close tolerates a second call.
+func (g *gen) hoResponseLife(sess *ast.File, responderClose *ast.FuncDecl) {
+	iq := g.parse("session_iq.go")
+	if iq == nil {
+		return
+	}
+	tok := hoFunc(iq, "errCloser", "Token")
+	clo := hoFunc(iq, "errCloser", "Close")
+	it := hoFunc(iq, "", "iterIQ")
+	um := hoFunc(iq, "", "unmarshalIQ")
+	if tok == nil || clo == nil || it == nil || um == nil {
+		g.errs = append(g.errs, "session_iq.go: errCloser.Token / errCloser.Close / iterIQ / unmarshalIQ not found")
+		return
+	}
+	recv := ""
+	if tok.Recv != nil && len(tok.Recv.List) == 1 && len(tok.Recv.List[0].Names) == 1 {
+		recv = tok.Recv.List[0].Names[0].Name
+	}
+	// every call of a method named Close inside Token: on the receiver itself
+	// (the guarded Close, directly or through a method value / defer) or on
+	// something else (the embedded reader: unguarded)
+	guarded, direct := 0, 0
+	ast.Inspect(tok, func(x ast.Node) bool {
+		sel, is := x.(*ast.SelectorExpr)
+		if !is || sel.Sel.Name != "Close" {
+			return true
+		}
+		if id, is := sel.X.(*ast.Ident); is && id.Name == recv {
+			guarded++
+		} else {
+			direct++
+		}
+		return true
+	})
+	kind := 0
+	switch {
+	case direct > 0:
+		kind = 2
+	case guarded > 0:
+		kind = 1
+	}
+	g.p("Definition ho_errcloser_token_closes : nat := %d. (* 0 nothing, 1 the guarded Close, 2 the embedded reader *)\n", kind)
+	cloText := []byte(g.hoText(clo))
+	g.p("Definition ho_errcloser_close_once : bool := %s.\n", hoBool(bytes.Contains(cloText, []byte(".once.Do(")) && hoCountSelCalls(clo, "Close") == 1))
+	itText := []byte(g.hoText(it))
+	g.p("Definition ho_iter_wraps_response : bool := %s.\n", hoBool(bytes.Contains(itText, []byte("resp = &errCloser{TokenReadCloser: resp}"))))
+	g.p("Definition ho_iter_closes_on_error_return : bool := %s.\n", hoBool(hoDeferredClose(g, it, true)))
+	g.p("Definition ho_unmarshal_closes_on_return : bool := %s.\n", hoBool(hoDeferredClose(g, um, false)))
+	guardedResp := false
+	if responderClose != nil {
+		t := []byte(g.hoText(responderClose))
+		guardedResp = bytes.Contains(t, []byte(".Do(")) || bytes.Contains(t, []byte("CompareAndSwap")) || bytes.Contains(t, []byte("recover()"))
+	}
+	g.p("Definition ho_responder_close_tolerates_second_call : bool := %s.\n", hoBool(guardedResp))
+}
+
+// hoCountSelCalls counts calls X.name(...) in n.
+func hoCountSelCalls(n ast.Node, name string) int {
+	k := 0
+	ast.Inspect(n, func(x ast.Node) bool {
+		if call, is := x.(*ast.CallExpr); is {
+			if sel, is := call.Fun.(*ast.SelectorExpr); is && sel.Sel.Name == name {
+				k++
+			}
+		}
+		return true
+	})
+	return k
+}
+
+// hoDeferredClose: fd has a top-level `defer func() { ... resp.Close() ... }()`;
+// with onError the call must sit under `if e != nil`.
+func hoDeferredClose(g *gen, fd *ast.FuncDecl, onError bool) bool {
+	for _, st := range fd.Body.List {
+		ds, is := st.(*ast.DeferStmt)
+		if !is {
+			continue
+		}
+		fl, is := ds.Call.Fun.(*ast.FuncLit)
+		if !is {
+			continue
+		}
+		t := []byte(g.hoText(fl))
+		if !bytes.Contains(t, []byte("resp.Close()")) {
+			continue
+		}
+		if onError {
+			return bytes.Contains(t, []byte("if e != nil"))
+		}
+		return !bytes.Contains(t, []byte("if e != nil"))
+	}
+	return false
 }
 
 func max0(g *gen, v int, msg string) int {
